@@ -32,6 +32,7 @@ type CCase struct {
 	Schedule []int      `json:"schedule"` // instance index (1-based) per I/O step; empty = free running
 	Procs    int        `json:"procs"`    // GOMAXPROCS
 	Rounds   int        `json:"rounds"`   // free-running repetitions
+	Cold     bool       `json:"cold"`     // run concurrently first (nothing of the library has run in this process yet), solo afterwards
 	Tag      string     `json:"tag"`
 }
 
@@ -240,6 +241,11 @@ func runInstance(spec *InstSpec, prepared []byte, g *gate, idx int) (digest stri
 		if err != nil {
 			return "", "ctor:" + err.Error(), ""
 		}
+		if u.gzHdr != nil {
+			hd := u.gzHdr() // header fields are part of what the instance produces
+			h.Write([]byte(hd.Name + "\x00" + hd.Comment + "\x00"))
+			h.Write(hd.Extra)
+		}
 		reads := spec.Reads
 		if len(reads) == 0 {
 			reads = []int{4096}
@@ -270,7 +276,7 @@ func execConcCase(c *CCase, arch int, emit func(interface{})) {
 	for i := range c.Insts {
 		sp := &c.Insts[i]
 		if sp.Role == "reader" {
-			b, err := encode(EncSpec{Impl: "std", Kind: sp.Set.Kind, Level: sp.Set.Level, Window: 32768, Data: sp.Data, Dict: sp.Set.Dict})
+			b, err := encode(EncSpec{Impl: "std", Kind: sp.Set.Kind, Level: sp.Set.Level, Window: 32768, Data: sp.Data, Dict: sp.Set.Dict, Hdr: sp.Set.Hdr})
 			if err != nil {
 				emit(CEvent{Ev: "Crash", Case: c.ID, Panic: "harness: " + err.Error()})
 				return
@@ -280,9 +286,14 @@ func execConcCase(c *CCase, arch int, emit func(interface{})) {
 	}
 	type res struct{ d, e, p string }
 	solo := make([]res, len(c.Insts))
-	for i := range c.Insts {
-		d, e, p := runInstance(&c.Insts[i], prepared[i], nil, i+1)
-		solo[i] = res{d, e, p}
+	runSolo := func() {
+		for i := range c.Insts {
+			d, e, p := runInstance(&c.Insts[i], prepared[i], nil, i+1)
+			solo[i] = res{d, e, p}
+		}
+	}
+	if !c.Cold {
+		runSolo()
 	}
 	rounds := c.Rounds
 	if rounds < 1 {
@@ -301,6 +312,9 @@ func execConcCase(c *CCase, arch int, emit func(interface{})) {
 			}(i)
 		}
 		wg.Wait()
+		if c.Cold && r == 0 {
+			runSolo()
+		}
 		for i := range c.Insts {
 			pan := conc[i].p
 			if pan == "" {
@@ -352,6 +366,9 @@ func randomInstance(rng *rand.Rand, small bool) InstSpec {
 		set.Level = 6
 	}
 	set.Hdr = nil
+	if set.Kind == "gzip" {
+		set.Hdr = &GzHeader{Name: latin1(rng, 1+rng.Intn(100), true), Comment: latin1(rng, 1+rng.Intn(300), true), OS: 255}
+	}
 	return InstSpec{Role: "reader", Set: set, Data: d, Reads: readSchedules[rng.Intn(len(readSchedules))], Chunks: chunkSchedules[rng.Intn(len(chunkSchedules))]}
 }
 
